@@ -13,32 +13,35 @@
    cached handle attached to its owner's child list at an interior position.
    [abs] reads the abstract file off a tree by content kind only (what it
    serialises to); [spec_run] is the obvious list semantics of the edits.
-   [safe_op] = every operation except Block.SetType and Body.Clear, for which the
-   statements are FALSE of the faithful model (C12_settype_refuted,
-   C12_clear_refuted below). *)
+   All theorems hold for EVERY operation of the model (set by value/traversal/
+   raw tokens, rename, remove, append new/existing block, remove block, SetType,
+   SetLabels, AppendNewline/AppendUnstructuredTokens, Clear).  Earlier revisions
+   of the Go code made them false for SetType and Clear (DESIGN section 9 #1 and
+   the Clear/items defect); both are repaired and the former refutations are now
+   regression examples (C12_settype_history_ok, C12_clear_history_ok). *)
 From HclV Require Import Base.Prelude Gen.TokenTypes Write.Format Write.Tree Write.TreeSpec
   Write.TreeSpecProofs Write.TreeProofs Write.TreeL1Proofs.
 
 (* ---- the history theorems ------------------------------------------------------------ *)
 
-(* wf_preserved: for every well-formed tree and every history of safe operations
-   (any arguments: absent names, repeats, any body path), the run neither panics
+(* wf_preserved: for every well-formed tree and every history (any operations,
+   any arguments: absent names, repeats, any body path), the run neither panics
    nor uses a list operation outside its precondition, and ends well-formed. *)
 Theorem C12_wf_preserved :
-  forall ops s, Forall safe_op ops -> WF s -> exists s', run ops s = Ok s' /\ WF s'.
+  forall ops s, WF s -> exists s', run ops s = Ok s' /\ WF s'.
 Proof. exact wf_preserved. Qed.
 Print Assumptions C12_wf_preserved.
 
 (* refines_spec: the file is the one the simple list model predicts. *)
 Theorem C12_refines_spec :
-  forall ops s, Forall safe_op ops -> WF s ->
+  forall ops s, WF s ->
     exists s', run ops s = Ok s' /\ WF s' /\ abs s' = spec_run ops (abs s).
 Proof. exact run_refines. Qed.
 Print Assumptions C12_refines_spec.
 
 (* one step (the induction step of the above) *)
 Theorem C12_step_refines :
-  forall o s, safe_op o -> WF s ->
+  forall o s, WF s ->
     exists s', step o s = Ok s' /\ WF s' /\ abs s' = spec_step o (abs s).
 Proof. exact step_refines. Qed.
 Print Assumptions C12_step_refines.
@@ -67,11 +70,11 @@ Theorem C12_get_attribute_agrees :
 Proof. exact get_attribute_agrees. Qed.
 Print Assumptions C12_get_attribute_agrees.
 
-(* all of it for a whole history: after any history of safe operations the tree
+(* all of it for a whole history: after ANY history the tree
    is well-formed, the tokens of the file are the serialisation of the
    specification's result and every reader agrees with the specification *)
 Theorem C12_history_correct :
-  forall unesc ops s, WF s -> Forall safe_op ops ->
+  forall unesc ops s, WF s ->
     exists s',
       run ops s = Ok s' /\ WF s' /\
       abs s' = spec_run ops (abs s) /\
@@ -82,7 +85,7 @@ Print Assumptions C12_history_correct.
 
 (* ---- untouched items keep their tokens and comments --------------------------------------- *)
 
-(* on the specification, for EVERY operation (SetType and Clear included): the
+(* on the specification, for every operation: the
    file prefix and suffix are unchanged and either nothing changed or exactly the
    addressed body did — siblings along the path and the enclosing blocks' own
    tokens are identical ([edits_at]) — and inside it at most one item was
@@ -97,9 +100,9 @@ Theorem C12_spec_frame :
 Proof. exact spec_frame. Qed.
 Print Assumptions C12_spec_frame.
 
-(* on the tree, for safe operations *)
+(* on the tree *)
 Theorem C12_untouched_preserved :
-  forall o s, safe_op o -> WF s ->
+  forall o s, WF s ->
     exists s', step o s = Ok s' /\
       f_pre s' = f_pre s /\ f_post s' = f_post s /\
       (abs_body (root s') = abs_body (root s) \/
@@ -109,7 +112,7 @@ Print Assumptions C12_untouched_preserved.
 
 (* at token level: the tokens before and after the addressed body are the same *)
 Theorem C12_untouched_tokens :
-  forall o s, safe_op o -> WF s ->
+  forall o s, WF s ->
     exists s', step o s = Ok s' /\
       (body_tokens (root s') = body_tokens (root s) \/
        exists pre post b b', local_rel o b b' /\
@@ -125,14 +128,13 @@ Print Assumptions C12_untouched_tokens.
      item = blank lines / whole-line comments
           | comment* IDENT comment* '=' comment* EXPR comment* EOL          (ExprOK EXPR)
           | comment* IDENT label* '{' comment* EOL body '}' comment* EOL
-   For every history of safe operations whose arguments are acceptable
+   For every history of operations whose arguments are acceptable
    (expression tokens satisfy ExprOK, labels are quoted tokens, raw tokens are
    blank lines/comments) on a well-formed tree whose items have that shape, the
    tokens of the body are in the grammar. *)
 Theorem C12_output_shape :
   forall (ExprOK : list tok -> Prop) ops s,
-    WF s -> ashaped ExprOK (abs s) ->
-    Forall safe_op ops -> Forall (op_ok ExprOK) ops ->
+    WF s -> ashaped ExprOK (abs s) -> Forall (op_ok ExprOK) ops ->
     exists s', run ops s = Ok s' /\ GBody ExprOK (body_tokens (root s')).
 Proof. exact output_shape. Qed.
 Print Assumptions C12_output_shape.
@@ -142,14 +144,14 @@ Definition newline_free (e : list tok) : Prop := e <> [] /\ Forall (fun t => tok
 
 Theorem C12_output_shape_from_empty :
   forall ops,
-    Forall safe_op ops -> Forall (op_ok newline_free) ops ->
+    Forall (op_ok newline_free) ops ->
     exists s', run ops empty_state = Ok s' /\ GBody newline_free (body_tokens (root s')).
 Proof.
-  exact (fun ops So Ok => output_shape newline_free ops empty_state empty_wf (empty_shaped _) So Ok).
+  exact (fun ops Ok => output_shape newline_free ops empty_state empty_wf (empty_shaped _) Ok).
 Qed.
 Print Assumptions C12_output_shape_from_empty.
 
-(* on the specification the shape is preserved by EVERY operation *)
+(* the same on the specification alone *)
 Theorem C12_spec_shape :
   forall (ExprOK : list tok -> Prop) ops s,
     Forall (op_ok ExprOK) ops -> ashaped ExprOK s -> ashaped ExprOK (spec_run ops s).
@@ -161,40 +163,33 @@ Theorem C12_wf_check_sound : forall s, wf_state_b s = true -> WF s.
 Proof. exact wf_state_b_sound. Qed.
 Print Assumptions C12_wf_check_sound.
 
-(* ---- what is FALSE of the faithful model ---------------------------------------------------- *)
+(* ---- the former counterexamples, on the repaired code ----------------------------------------- *)
 
-(* Block.SetType discards the node returned by ReplaceWith: after
-   AppendNewBlock("a", []) ; SetType("b") on the empty file the file says `b`
-   (abs = spec) but the tree is not well-formed, Type() answers "a", and
-   SetType("c") panics. *)
-Theorem C12_settype_refuted :
-  exists s2,
-    run [OAppendNewBlock [] [97] []; OSetType [] 0 [98]] empty_state = Ok s2 /\
-    abs s2 = spec_run [OAppendNewBlock [] [97] []; OSetType [] 0 [98]] (abs empty_state) /\
-    ~ WF s2 /\
-    (forall unesc, observe unesc (root s2) <> Ok (spec_observe unesc (a_root (abs s2)))) /\
-    (forall unesc, observe unesc (root s2) = Ok (BObs [] [([97], [], BObs [] [])])) /\
-    (forall unesc, spec_observe unesc (a_root (abs s2)) = BObs [] [([98], [], BObs [] [])]) /\
-    step (OSetType [] 0 [99]) s2 = Panic.
-Proof. exact settype_refuted. Qed.
-Print Assumptions C12_settype_refuted.
+(* AppendNewBlock("a", []) ; SetType("b") ; SetType("c") on the empty file: with
+   the earlier SetType (result of ReplaceWith dropped) Type() stayed "a" and the
+   second SetType panicked; now the run succeeds, the tree is well-formed, the
+   file is what the specification says and Type() answers "c". *)
+Example C12_settype_history_ok :
+  exists s3,
+    run [OAppendNewBlock [] [97] []; OSetType [] 0 [98]; OSetType [] 0 [99]] empty_state = Ok s3 /\
+    abs s3 = spec_run [OAppendNewBlock [] [97] []; OSetType [] 0 [98]; OSetType [] 0 [99]] (abs empty_state) /\
+    wf_state_b s3 = true /\
+    (forall unesc, observe unesc (root s3) = Ok (BObs [] [([99], [], BObs [] [])])).
+Proof. exact settype_history_ok. Qed.
 
-(* Body.Clear empties the children but not the item set: after
-   SetAttribute("a",1) ; Clear() the file is empty but Attributes() lists "a";
-   SetAttribute("a",2) then edits the orphan: the file stays empty where the
-   specification has `a = 2`. *)
-Theorem C12_clear_refuted :
+(* SetAttribute("a",1) ; Clear() ; SetAttribute("a",2): with the earlier Clear
+   (items not emptied) Attributes() still listed "a" after Clear and the last
+   edit was lost; now Attributes() is empty after Clear and the file ends as
+   `a = 2`, as the specification says. *)
+Example C12_clear_history_ok :
   exists s2 s3,
     run (firstn 2 clear_history) empty_state = Ok s2 /\
-    abs s2 = spec_run (firstn 2 clear_history) (abs empty_state) /\
-    ~ WF s2 /\
-    body_attributes (root s2) = Ok [(nm_a, one_tok)] /\ spec_attributes (a_root (abs s2)) = [] /\
+    body_attributes (root s2) = Ok [] /\ file_tokens s2 = [] /\
     run clear_history empty_state = Ok s3 /\
-    file_tokens s3 = [] /\
-    aser (spec_run clear_history (abs empty_state)) <> [] /\
-    abs s3 <> spec_run clear_history (abs empty_state).
-Proof. exact clear_refuted. Qed.
-Print Assumptions C12_clear_refuted.
+    abs s3 = spec_run clear_history (abs empty_state) /\
+    body_attributes (root s3) = Ok [(nm_a, two_tok)] /\
+    map (fun t => (ty t, bytes t)) (file_tokens s3) = [(TokenIdent, nm_a); (TokenEqual, [61]); (TokenNumberLit, [50]); (TokenNewline, [10])].
+Proof. exact clear_history_ok. Qed.
 
 (* Labels(): a quoted label is read as the join of its decoded literal tokens —
    also when the scanner split it around '$' or '%' ("a$b" = a , $ , b).  The
@@ -307,10 +302,10 @@ Definition example_state : state :=
                                        (2, IAttr (mkAttr [ (1, LComments []); (2, LIdent (K 73 [99] 2));
                                                            (3, LTokens [K 61 [61] 1]); (4, LExpr [K 78 [50] 1]);
                                                            (5, LComments []); (6, LTokens [K 10 [10] 0]) ] 1 2 4 5)) ]
-                                     [2] [])
+                                     [2])
                              [ (6, KLeaf (LTokens [K 125 [125] 0])); (7, KLeaf (LTokens [K 10 [10] 0])) ]
-                             1 2 3 4 5 6 [])) ]
-       [1; 2] [])
+                             1 2 3 4 5 6)) ]
+       [1; 2])
     [K 9220 [] 0] [].
 
 Definition example_history : list op :=
@@ -319,13 +314,11 @@ Definition example_history : list op :=
     OSetAttr [0] [100] [K 78 [51] 0];               (* Blocks()[0].Body().SetAttributeRaw("d", 3) *)
     OSetLabels [] 0 [[K 171 [34] 0; K 81 [109] 0; K 187 [34] 0]];
     ORemoveAttr [0] [99];                           (* Blocks()[0].Body().RemoveAttribute("c")    *)
+    OSetType [] 0 [98; 98]; OSetType [] 0 [98];     (* Blocks()[0].SetType("bb"); SetType("b")    *)
     ORemoveBlock [] 0; OAppendBlock [] 0 ].
 
 Example C12_example_wf : WF example_state.
 Proof. apply wf_state_b_sound. vm_compute. reflexivity. Qed.
-
-Example C12_example_safe : Forall safe_op example_history.
-Proof. repeat constructor. Qed.
 
 (* the lead comment and the line comment of the edited, renamed attribute survive *)
 Example C12_example_run :
